@@ -117,6 +117,10 @@ func UnmarshalDocument(d *json.RawMessage, t MediaType) (Document, error) {
 		return nil, err
 	}
 
+	if d == nil {
+		return nil, errors.New("document value is required")
+	}
+
 	document := factory()
 	err = json.Unmarshal(*d, &document)
 	if err != nil {
